@@ -43,6 +43,9 @@ def c02(chk):
     # frame limits that differ between caller and callee: what one side refuses the other never sees as a
     # shorter message (a refused body is an error, not an empty body)
     rpc_runs(chk, "sizes", mode="sizes", faults=0, calls=60, seed=chk.seed + 2, runs=4 if quick(chk) else 60, jobs=6, files=2)
+    # calls that run into a deadline on either side end in an error (or the serving side's own 408) - never
+    # in a response nobody produced
+    rpc_runs(chk, "deadlines", mode="timeouts", faults=0, calls=60, seed=chk.seed + 4, runs=4 if quick(chk) else 60, jobs=6, files=2)
     # the middleware an application may put around its service or its calls (anemo-tower: request id,
     # set header, classifier, callback, trace): each changes exactly what AnemoTowerMisc says, nothing else
     tables = vlib.tlc_tables("AnemoTowerMisc.tla", "AnemoTowerMisc.cfg")
